@@ -41,8 +41,15 @@ def batches(scratch, tier="thorough"):
             specs[h] = dict(kind=kind, bound=note, default_prop=PROP,
                             functions=["collective::%s::{from_version_%s, to_version_%s}" % (fam, v[1:], v[1:]),
                                        "CollectiveMessage::read_protocol", "CollectiveMessage::write_protocol"])
+    for v in ("v2", "v3", "v5", "v6", "v7", "v2_write", "v3_write", "v5_write", "v6_write", "v7_write"):
+        h = "verif_kani::c14_collective::logon_challenge_server_values::%s" % v
+        if h.split("::", 2)[2] in excluded or (tier == "quick" and v.endswith("_write")):
+            continue
+        specs[h] = dict(kind="bounded", bound="value built field-wise; vector lengths concrete (generator 1 byte, large_safe_prime 2 bytes), all contents symbolic",
+                        default_prop=PROP, functions=["collective::cmd_auth_logon_challenge_server::{from_version_%s, to_version_%s}" % (v[1:2], v[1:2]),
+                                                      "CollectiveMessage::write_protocol"])
     specs["verif_kani::c14_collective::c14_canary"] = dict(canary=True)
-    return [vlib.Batch("wow_login_messages", FEATURES, mods, specs, jobs=5, harness_timeout=(2400 if tier == "thorough" else 420))]
+    return [vlib.Batch("wow_login_messages", FEATURES, mods, specs, jobs=5, harness_timeout=(600 if tier == "thorough" else 420))]
 
 
 def _excluded():
